@@ -197,3 +197,126 @@ Example C07_run_passes_example_safe :
           C07.ModelPasses.prune_pass ProofsPassesExtra.sel_br].
 Proof. exact ProofsPassesExtra.run_passes_example_safe. Qed.
 Print Assumptions C07_run_passes_example_safe.
+
+(* ---- whole passes, second generic shape.  Model C07/ModelPasses2.v: the visited node edits selected CHILDREN
+   (node.replace_child(c, c.children) or node.remove_child(c), targets fixed when the node is visited), then
+   returns or descends into its children list as it is after the edits.  Instances in treecleaner.py:
+   remove_leading_para_in_list 1479-1488, restrict_children 1153-1162 (drops words by design),
+   remove_empty_training_table_rows 1508-1515.  For EVERY selection of children such that dissolved children
+   have no own words and removed children no words below them (under an invariant I about classes / own
+   words): on a proper tree the pass terminates with fuel = number of nodes, raises nothing, leaves a proper
+   tree with the same root and the same visible words; it is a safe pass, so C07_run_passes_preserves_words
+   composes it with the passes above.  Classification of all cleaner methods: C07/ProofsPasses2.v. *)
+From MW Require C07.ModelPasses2 C07.ProofsPasses2.
+
+Theorem C07_child_pass_preserves_words : forall (tgt : heap -> N -> list N) (dis stop : heap -> N -> bool)
+    (I : heap -> Prop), C07.ProofsPasses.tc_closed I ->
+  (forall h n, I h -> incl (tgt h n) (kids h n)) ->
+  (forall h n, I h -> NoDup (kids h n) -> NoDup (tgt h n)) ->
+  (forall h n c, I h -> dis h n = true -> In c (tgt h n) -> textof h c = []) ->
+  (forall h n c, I h -> dis h n = false -> In c (tgt h n) -> words h c = []) ->
+  forall h r, I h -> WF h r ->
+  exists h', C07.ModelPasses2.child_pass tgt dis stop h r = Done h' /\ I h' /\ WF h' r /\
+             words h' r = words h r /\ C07.Proofs.same_tc h h'.
+Proof. exact C07.ProofsPasses2.child_pass_ok. Qed.
+Print Assumptions C07_child_pass_preserves_words.
+
+Theorem C07_child_pass_safe : forall (tgt : heap -> N -> list N) (dis stop : heap -> N -> bool)
+    (I : heap -> Prop), C07.ProofsPasses.tc_closed I ->
+  (forall h n, I h -> incl (tgt h n) (kids h n)) ->
+  (forall h n, I h -> NoDup (kids h n) -> NoDup (tgt h n)) ->
+  (forall h n c, I h -> dis h n = true -> In c (tgt h n) -> textof h c = []) ->
+  (forall h n c, I h -> dis h n = false -> In c (tgt h n) -> words h c = []) ->
+  C07.ProofsPasses.safe_pass I (C07.ModelPasses2.child_pass tgt dis stop).
+Proof. exact C07.ProofsPasses2.child_pass_safe. Qed.
+Print Assumptions C07_child_pass_safe.
+
+(* real passes as corollaries; invariant: Paragraphs carry no words of their own *)
+Theorem C07_remove_leading_para_in_list_safe :
+  C07.ProofsPasses.safe_pass C07.ProofsPasses2.para_textless C07.ModelPasses2.remove_leading_para_in_list.
+Proof. exact C07.ProofsPasses2.remove_leading_para_in_list_safe. Qed.
+Print Assumptions C07_remove_leading_para_in_list_safe.
+
+Theorem C07_remove_list_only_paragraphs_safe :
+  C07.ProofsPasses.safe_pass C07.ProofsPasses2.para_textless C07.ModelPasses2.remove_list_only_paragraphs.
+Proof. exact C07.ProofsPasses2.remove_list_only_paragraphs_safe. Qed.
+Print Assumptions C07_remove_list_only_paragraphs_safe.
+
+(* restrict_children drops children with their words by design: safe exactly where the dropped children are wordless *)
+Theorem C07_restrict_children_safe : forall (restricted : N -> bool) (allowed : N -> N -> bool)
+    (I : heap -> Prop), C07.ProofsPasses.tc_closed I ->
+  (forall h n c, I h -> restricted (clsof h n) = true -> In c (kids h n) ->
+                 allowed (clsof h n) (clsof h c) = false -> words h c = []) ->
+  C07.ProofsPasses.safe_pass I (C07.ModelPasses2.restrict_children restricted allowed).
+Proof. exact C07.ProofsPasses2.restrict_children_safe. Qed.
+Print Assumptions C07_restrict_children_safe.
+
+Theorem C07_remove_empty_trailing_rows_safe : forall (I : heap -> Prop), C07.ProofsPasses.tc_closed I ->
+  (forall h n c, I h -> clsof h n = c_Table -> In c (kids h n) ->
+                 C07.ModelPasses2.empty_row h c = true -> words h c = []) ->
+  C07.ProofsPasses.safe_pass I C07.ModelPasses2.remove_empty_trailing_rows.
+Proof. exact C07.ProofsPasses2.remove_empty_trailing_rows_safe. Qed.
+Print Assumptions C07_remove_empty_trailing_rows_safe.
+
+(* blank h n = "node.get_all_display_text().strip() is empty"; assumption: such a node has no visible words *)
+Theorem C07_remove_textless_styles_safe : forall (is_style : N -> bool) (blank : heap -> N -> bool)
+    (I : heap -> Prop), C07.ProofsPasses.tc_closed I ->
+  (forall h n, I h -> blank h n = true -> textof h n = [] /\ words h n = []) ->
+  C07.ProofsPasses.safe_pass I (C07.ModelPasses2.remove_textless_styles is_style blank).
+Proof. exact C07.ProofsPasses2.remove_textless_styles_safe. Qed.
+Print Assumptions C07_remove_textless_styles_safe.
+
+(* `if sel(node) and node.parent: node.parent.remove_child(node); return` (remove_invisible_links, ...) *)
+Theorem C07_remove_selected_safe : forall sel (I : heap -> Prop), C07.ProofsPasses.tc_closed I ->
+  (forall h n, I h -> sel h n = true -> words h n = []) ->
+  C07.ProofsPasses.safe_pass I (C07.ModelPasses2.remove_selected sel).
+Proof. exact C07.ProofsPasses2.remove_selected_safe. Qed.
+Print Assumptions C07_remove_selected_safe.
+
+(* passes that only write attributes (clean_vlist, mark_infoboxes, mark_short_paragraph, fix_math_dir) *)
+Theorem C07_attr_only_pass_safe : forall (I : heap -> Prop), C07.ProofsPasses.tc_closed I ->
+  C07.ProofsPasses.safe_pass I C07.ModelPasses2.attr_only_pass.
+Proof. exact C07.ProofsPasses2.attr_only_pass_safe. Qed.
+Print Assumptions C07_attr_only_pass_safe.
+
+Theorem C07_attr_only_pass_id : forall h r, WF h r -> C07.ModelPasses2.attr_only_pass h r = Done h.
+Proof. exact C07.ProofsPasses2.attr_only_pass_id. Qed.
+Print Assumptions C07_attr_only_pass_id.
+
+Example C07_leading_para_example :
+  WF ProofsPasses2.hy 1 /\ C07.ProofsPasses2.para_textless ProofsPasses2.hy /\
+  exists h', C07.ModelPasses2.remove_leading_para_in_list ProofsPasses2.hy 1 = Done h' /\
+             kids h' 3 = [5; 6; 7]%N /\ wfb h' 1 = true /\ words h' 1 = [5; 6; 7]%N /\
+             words ProofsPasses2.hy 1 = [5; 6; 7]%N.
+Proof. exact ProofsPasses2.leading_para_example. Qed.
+Print Assumptions C07_leading_para_example.
+
+Example C07_empty_rows_example :
+  WF ProofsPasses2.hz 1 /\ C07.ModelPasses2.er_tgt ProofsPasses2.hz 2 = [8; 6]%N /\
+  exists h', C07.ModelPasses2.remove_empty_trailing_rows ProofsPasses2.hz 1 = Done h' /\
+             kids h' 2 = [3]%N /\ wfb h' 1 = true /\ words h' 1 = [5]%N /\ words ProofsPasses2.hz 1 = [5]%N.
+Proof. exact ProofsPasses2.empty_rows_example. Qed.
+Print Assumptions C07_empty_rows_example.
+
+Example C07_restrict_children_example :
+  WF ProofsPasses2.hw 1 /\
+  exists h', C07.ModelPasses2.restrict_children ProofsPasses2.restricted_real ProofsPasses2.allowed_real
+                                               ProofsPasses2.hw 1 = Done h' /\
+             kids h' 2 = [3; 5]%N /\ wfb h' 1 = true /\ words h' 1 = [9]%N /\ words ProofsPasses2.hw 1 = [9]%N.
+Proof. exact ProofsPasses2.restrict_children_example. Qed.
+Print Assumptions C07_restrict_children_example.
+
+Example C07_run_passes2_example_safe :
+  Forall (C07.ProofsPasses.safe_pass C07.ProofsPasses2.para_textless)
+         [C07.ModelPasses2.remove_list_only_paragraphs; C07.ModelPasses2.remove_leading_para_in_list;
+          C07.ModelPasses2.attr_only_pass].
+Proof. exact ProofsPasses2.run_passes2_example_safe. Qed.
+Print Assumptions C07_run_passes2_example_safe.
+
+Example C07_run_passes2_example :
+  exists h', C07.ModelPasses.run_passes
+               [C07.ModelPasses2.remove_list_only_paragraphs; C07.ModelPasses2.remove_leading_para_in_list;
+                C07.ModelPasses2.attr_only_pass] ProofsPasses2.hy 1 = Done h' /\
+             kids h' 3 = [5; 6; 7]%N /\ wfb h' 1 = true /\ words h' 1 = words ProofsPasses2.hy 1.
+Proof. exact ProofsPasses2.run_passes2_example. Qed.
+Print Assumptions C07_run_passes2_example.
